@@ -24,6 +24,7 @@ type Caller struct {
 	Arrival string `json:"arrival"` // inwrite: reply consumed before the caller's Write returns; afterwrite: delivered once all queries were written
 	ID      uint16 `json:"id"`
 	Pad     int    `json:"pad"`
+	Junk    bool   `json:"junk"` // datagram only: a packet shorter than a dns header arrives right before the reply
 }
 
 type Case struct {
@@ -53,6 +54,7 @@ func genCase(t *rapid.T) Case {
 			Arrival: rapid.SampledFrom([]string{"inwrite", "inwrite", "afterwrite"}).Draw(t, "arrival"),
 			ID:      uint16(rapid.IntRange(0, 65535).Draw(t, "id")),
 			Pad:     rapid.SampledFrom([]int{0, 0, 300, 3000}).Draw(t, "pad"),
+			Junk:    c.Datagram && rapid.IntRange(0, 3).Draw(t, "junk") == 0,
 		})
 	}
 	follows := []string{"none", "none", "eof", "eof", "readerr"}
@@ -149,6 +151,9 @@ func runCase(c Case, ctx *hx.Ctx) *hx.Failure {
 			firstToken[i] = tok
 			mu.Unlock()
 			fr := fc.Frame(r)
+			if c.Callers[i].Junk {
+				fc.Feed([]byte{0xde, 0xad, 0xbe, 0xef, 1}) // noise the client must skip
+			}
 			if c.Callers[i].Arrival == "inwrite" {
 				fc.FeedChunks(fr, c.Chunks)
 				mu.Lock()
